@@ -44,7 +44,10 @@ def rust_unescape(s):
 FIELD_TYPES = [("String", "str", False), ("i32", "num", False), ("f64", "num", False), ("u8", "num", False), ("Vec<String>", "arr", False),
                ("Option<String>", "str", True), ("Option<i32>", "num", True), ("Vec<i32>", "arr", False), ("Option<Vec<String>>", "arr", True), ("u64", "num", False),
                # constraints belong to the field itself, never to an Option buried below another constructor
-               ("Vec<Option<String>>", "arr", False), ("Vec<Option<i32>>", "arr", False), ("Option<Vec<Option<String>>>", "arr", True)]
+               ("Vec<Option<String>>", "arr", False), ("Vec<Option<i32>>", "arr", False), ("Option<Vec<Option<String>>>", "arr", True),
+               # collections of project types (a struct, an enum), nested and fixed-size: the length is the collection's all the same
+               ("Vec<Elem>", "arr", False), ("Option<Vec<Elem>>", "arr", True), ("Vec<Mode>", "arr", False), ("Vec<Vec<Elem>>", "arr", False), ("[Elem; 3]", "arr", False),
+               ("Vec<Option<Elem>>", "arr", False)]
 
 
 def gen_field(rnd, k):
@@ -204,7 +207,8 @@ def gen_project(rnd, idx):
             truth[(sname, wire)] = (expected, feats, ty, attrs)
         structs.append(rg.struct_src(sname, fields, derives="Serialize, Deserialize, Validate"))
     cmds = "".join(rg.command_src("save_%s" % s.lower(), [("v", s)], "i32") for s in sorted({k[0] for k in truth}))
-    return [("lib.rs", rg.PRELUDE + "use validator::Validate;\n\n" + "".join(structs) + cmds)], truth
+    elems = rg.struct_src("Elem", [("id", "u32")]) + rg.enum_src("Mode", [("Fast",), ("Slow",)])
+    return [("lib.rs", rg.PRELUDE + "use validator::Validate;\n\n" + elems + "".join(structs) + cmds)], truth
 
 
 def decode_num(e):
